@@ -654,3 +654,159 @@ def _m2_unit(kind):
 
 
 U_MASS_ELEMENT_ROW = [_m2_unit(k) for k in ("weight given", "no weight")]
+
+
+# ==============================================================================  C20: magnetic_ff.init, line loop (loop 1)
+#
+# One iteration on a symbolic line `<name> = Magnetic_Form_Type("<state>", (/ seven numbers /))`.  The documented layout of
+# <state> (comment in the loader, CrysFML): `M<EL><ION>` (<j0>), `J<EL><ION>` (J), `<EL><ION>` for Magnetic_j2/j4/j6, <EL> the
+# element symbol in capitals (one or two letters), <ION> one digit.  Contract: the line stores its seven coefficients under the
+# documented field of the form-factor record of (element <EL>, charge <ION>), creating the element's charge dictionary and the
+# record when they do not exist yet, and leaves every other record, field and atom alone.
+
+MFFM = "periodictable.magnetic_ff"
+STR_CAP = z3.Function("str_capitalize", z3.StringSort(), z3.StringSort())
+_UPPER = z3.Range("A", "Z")
+_MFF_FORMS = {"Magnetic_Form M": ("Magnetic_Form", "M", "j0"), "Magnetic_Form J": ("Magnetic_Form", "J", "J"),
+              "Magnetic_j2": ("Magnetic_j2", "", "j2"), "Magnetic_j4": ("Magnetic_j4", "", "j4"), "Magnetic_j6": ("Magnetic_j6", "", "j6")}
+_MFF_FIELDS = ("j0", "j2", "j4", "j6", "J")
+
+
+def _mffrow_inputs(form, store, nletters):
+    prefix, lead, field = _MFF_FORMS[form]
+
+    def mk(st, interp):
+        use_state(st)
+        line = st.fresh("line", z3.StringSort())
+        stripped = z3.Function("str_strip", z3.StringSort(), z3.StringSort())(line)
+        name = st.fresh("name", z3.StringSort())
+        rhs = st.fresh("rhs", z3.StringSort())
+        sym = st.fresh("EL", z3.StringSort())
+        ion = st.fresh("ION", z3.StringSort())
+        st.assume(z3.Contains(stripped, z3.StringVal("=")))
+        st.assume(z3.PrefixOf(z3.StringVal(prefix), name))
+        # fixed-length pieces (one unit per symbol length) keep the sequence solver's work trivial
+        letters = [st.fresh("L%d" % i, z3.StringSort()) for i in range(nletters)]
+        for c in letters:
+            st.assume(z3.Length(c) == 1)
+            st.assume(z3.InRe(c, _UPPER))
+        st.assume(sym == (z3.Concat(*letters) if nletters > 1 else letters[0]))
+        st.assume(z3.Length(ion) == 1)
+        st.assume(z3.InRe(ion, z3.Range("0", "9")))
+        state = z3.Concat(z3.StringVal(lead), sym, ion) if lead else z3.Concat(sym, ion)
+        values = VTuple([st.fresh("c%d" % i, z3.RealSort()) for i in range(7)])
+
+        def split(interp_, st_, s, args):
+            if z3.eq(z3.simplify(s), z3.simplify(stripped)) and list(args) == ["="]:
+                return VList([name, rhs])
+            raise Unsupported("split of an unexpected string")
+        st.ghost["str_split"] = split
+        rhs_clean = z3.Function("str_replace_%s" % "_".join("%02x" % ord(c) for c in "/|"), z3.StringSort(), z3.StringSort())(rhs)
+
+        def c_eval(interp_, st_, args, kw):
+            a = interp_.resolve(st_, args[0])
+            if len(args) == 1 and not kw and z3.is_expr(a) and z3.eq(z3.simplify(a), z3.simplify(rhs_clean)):
+                return VTuple([state, values])
+            raise Unsupported("eval of an unexpected text")
+
+        expected_symbol = z3.If(z3.Length(sym) == 1, sym, STR_CAP(sym))
+        el = KC.TT_BY_SYMBOL(expected_symbol)
+        charge = z3.StrToInt(ion)
+        # the element's state before the line: no dictionary yet / a dictionary without this charge / with this charge
+        other_charge = st.fresh("other_charge", z3.IntSort())
+        other_rec = VObj((MFFM, "MagneticFormFactor"), {})
+        old_rec = VObj((MFFM, "MagneticFormFactor"), {k: VObj("Coeffs", {"of": k}) for k in _MFF_FIELDS if k != field and k != "J"})
+        old_fields = dict(old_rec.attrs)
+        if store == "charge known":
+            old_rec.attrs[field] = VObj("Coeffs", {"of": "stale " + field})
+        pre = {"first line of the element": None,
+               "new charge": VDict([[other_charge, other_rec]]),
+               "charge known": VDict([[other_charge, other_rec], [charge, old_rec]])}[store]
+        if pre is not None:
+            st.assume(other_charge != charge)
+        heap = {"dict": pre}
+        writes = []
+        reads = []
+
+        def on_set(i_, s_, v, nm, value, node):
+            writes.append((v.expr, nm, value))
+            if nm == "magnetic_ff":
+                heap["dict"] = value
+
+        def on_get(i_, s_, v, nm, node):
+            if nm == "magnetic_ff":
+                reads.append(v.expr)
+                if heap["dict"] is None:
+                    i_.raise_("AttributeError", "no attribute 'magnetic_ff' yet", node)
+                return heap["dict"]
+            return NotImplemented
+        st.ghost["atom_setattr"] = on_set
+        st.ghost["atom_attr_first"] = on_get
+        table = VObj("TargetTable", {"properties": VList(["magnetic_ff"])})
+        return [], {}, {"line": line, "table": table, "eval": VBuiltin("eval", c_eval), "el": el, "charge": charge, "values": values,
+                        "field": field, "store": store, "pre": pre, "pre_entries": [tuple(e) for e in pre.entries] if pre is not None else [], "heap": heap, "writes": writes, "reads": reads, "other_charge": other_charge,
+                        "other_rec": other_rec, "old_rec": old_rec, "old_fields": old_fields}
+    return mk
+
+
+def _mffrow_post(st, interp, C, res):
+    if res.outcome == "raise":
+        st.oblige("never-raises", False, kind="raises", info={"exc": res.exc})
+        return
+    writes, heap, store, field = C["writes"], C["heap"], C["store"], C["field"]
+    if store == "first line of the element":
+        ok = len(writes) == 1 and writes[0][1] == "magnetic_ff" and isinstance(writes[0][2], VDict)
+        st.oblige("post.one atom gets a charge dictionary, once, and nothing else is stored on atoms", z3.BoolVal(ok))
+        if ok:
+            st.oblige("post.that atom is the element <EL> of the line (capitals -> symbol)", writes[0][0] == C["el"])
+    else:
+        st.oblige("post.an element that has a charge dictionary keeps that dictionary (no atom is written)",
+                  z3.BoolVal(len(writes) == 0 and heap["dict"] is C["pre"]))
+    d = heap["dict"]
+    if not isinstance(d, VDict):
+        return
+    # entries of the dictionary after the line: the ones that were there before (same key objects) and what the line added
+    before = [] if C["pre"] is None else list(C["pre_entries"])
+    kept = [(k, v) for (k, v) in d.entries if any(k is k0 for (k0, _) in before)]
+    added = [(k, v) for (k, v) in d.entries if not any(k is k0 for (k0, _) in before)]
+    st.oblige("post.the records that were there stay under their charges, the same objects",
+              z3.BoolVal(len(kept) == len(before) and all(k1 is k2 and v1 is v2 for (k1, v1), (k2, v2) in zip(kept, before))
+                         and not C["other_rec"].attrs))
+    if store == "charge known":
+        st.oblige("post.a charge that has a record gets no second entry", z3.BoolVal(not added))
+        mine = [v for (k, v) in kept if k is C["charge"]]
+    else:
+        st.oblige("post.one entry is added", z3.BoolVal(len(added) == 1))
+        if len(added) == 1:
+            st.oblige("post.the new record is filed under the charge <ION> of the line", spec.eq_goal(interp, st, added[0][0], C["charge"]))
+        mine = [v for (k, v) in added]
+    if len(mine) != 1:
+        return
+    rec = mine[0]
+    is_rec = isinstance(rec, VObj) and rec.cls == (MFFM, "MagneticFormFactor")
+    st.oblige("post.the entry is a MagneticFormFactor record", z3.BoolVal(is_rec))
+    if not is_rec:
+        return
+    if store == "charge known":
+        st.oblige("post.a charge that has a record keeps that record object", z3.BoolVal(rec is C["old_rec"]))
+    st.oblige("post.the seven coefficients of the line are stored under the documented field (M -> j0, J -> J, Magnetic_jn -> jn)",
+              z3.BoolVal(rec.attrs.get(field) is C["values"]))
+    keep = C["old_fields"] if store == "charge known" else {}
+    rest = {k: v for k, v in rec.attrs.items() if k != field}
+    st.oblige("post.the other fields of the record are as before (none for a new record)",
+              z3.BoolVal(set(rest) == set(keep) and all(rest[k] is keep[k] for k in keep)))
+
+
+def _mffrow_unit(form, store, nletters):
+    holder = {}
+
+    def mk(st, interp):
+        args, kw, C = _mffrow_inputs(form, store, nletters)(st, interp)
+        holder.clear()
+        holder.update({"line": C["line"], "table": C["table"], "eval": C["eval"]})
+        return [], {}, C
+    return Unit("magnetic_ff.init::line loop[%s, %d-letter symbol, %s]" % (form, nletters, store), MFFM + ".init::loop#1", mk, _mffrow_post, closure=lambda interp: [holder],
+                contracts={"TargetTable.symbol": c_table_symbol_stub}, writes=[_MFF_FORMS[form][2]], replay={"module": "c20", "task": "replay"})
+
+
+U_MAGNETIC_ROW = [_mffrow_unit(f, s, n) for f in _MFF_FORMS for n in (1, 2) for s in ("first line of the element", "new charge", "charge known")]
